@@ -3,6 +3,7 @@ package props
 import (
 	"fmt"
 	"math/bits"
+	"runtime"
 	"sort"
 	"testing"
 
@@ -32,6 +33,13 @@ func TestC08(t *testing.T) {
 			st := store.New()
 			entries, model, sizes := childEntries(st, names)
 			mon.Shuffle(c.Rand(), entries)
+			if len(entries) >= 2 && (len(names)+d.Fanout)%3 == 0 {
+				// another directory built with another hash function just before, after the garbage
+				// collector has run (whatever the builder pools or caches is then handed on)
+				runtime.GC()
+				builder.BuildUnixFSShardedDirectory(d.Fanout, multihash.SHA2_256, entries[:2], store.New().LinkSystem(false))
+				c.Count("builds_after_other_hasher", 1)
+			}
 			l, size, err := builder.BuildUnixFSShardedDirectory(d.Fanout, multihash.MURMUR3X64_64, entries, st.LinkSystem(false))
 			ref := store.New()
 			rs, rerr := oracle.NewRefShard(ref, d.Fanout)
